@@ -376,6 +376,8 @@ pub enum RetKind {
     ResultStd,
     /// `Result<String, std::string::String>` (a path inside the type arguments)
     ResultPathArgs,
+    /// `Result<String>` through a one-parameter alias `type Result<T> = std::result::Result<T, String>`
+    ResultAlias,
 }
 
 #[derive(Clone, Copy, Debug, PartialEq, Eq)]
